@@ -25,105 +25,186 @@ ASSUMPTIONS = ["Dask bags: to_delayed() returns the partitions in order, map_par
 IV = "ivector:IVectorMachine.fit"
 
 
-def affine(e, i, hname, lname):
-    """(coef_i, coef_h, const) of an index expression, h = <length>//2; None if not affine."""
-    if isinstance(e, ast.Name):
-        if e.id == i:
-            return (1, 0, 0)
-        if e.id == hname:
-            return (0, 1, 0)
+class _Halving:
+    """A halving loop `while len(L) > 1: ...` normalised: which names / expressions denote the length and its half."""
+
+    def __init__(self, lp, lst):
+        self.lp, self.lst = lp, lst
+        self.len_names, self.half_names = set(), set()
+        for n in ast.walk(lp):
+            if isinstance(n, ast.NamedExpr) and self.is_len(n.value):
+                self.len_names.add(n.target.id)
+        changed = True
+        while changed:
+            changed = False
+            for st, t, v, k in stores(lp):
+                if isinstance(t, ast.Name) and v is not None and k == "assign":
+                    if self.is_len(v) and t.id not in self.len_names:
+                        self.len_names.add(t.id)
+                        changed = True
+                    if self.is_half(v) and t.id not in self.half_names:
+                        self.half_names.add(t.id)
+                        changed = True
+
+    def is_len(self, e):
+        if isinstance(e, ast.NamedExpr):
+            return self.is_len(e.value)
+        if isinstance(e, ast.Name):
+            return e.id in self.len_names
+        return isinstance(e, ast.Call) and src(e.func) == "len" and len(e.args) == 1 and src(e.args[0]) == self.lst
+
+    def is_half(self, e):
+        if isinstance(e, ast.Name):
+            return e.id in self.half_names
+        return isinstance(e, ast.BinOp) and isinstance(e.op, ast.FloorDiv) and self.is_len(e.left) and const_value(e.right) == 2
+
+    def affine(self, e, i):
+        """(coef_i, coef_half, coef_len, const) of an index expression; None if not affine in those."""
+        if self.is_half(e):
+            return (0, 1, 0, 0)
+        if self.is_len(e):
+            return (0, 0, 1, 0)
+        if isinstance(e, ast.Name):
+            return (1, 0, 0, 0) if e.id == i else None
+        if isinstance(e, ast.Constant) and isinstance(e.value, int) and not isinstance(e.value, bool):
+            return (0, 0, 0, e.value)
+        if isinstance(e, ast.UnaryOp) and isinstance(e.op, ast.USub):
+            a = self.affine(e.operand, i)
+            return None if a is None else tuple(-x for x in a)
+        if isinstance(e, ast.BinOp) and isinstance(e.op, (ast.Add, ast.Sub)):
+            a, b = self.affine(e.left, i), self.affine(e.right, i)
+            if a is None or b is None:
+                return None
+            s_ = 1 if isinstance(e.op, ast.Add) else -1
+            return tuple(x + s_ * y for x, y in zip(a, b))
         return None
-    if isinstance(e, ast.Constant) and isinstance(e.value, int):
-        return (0, 0, e.value)
-    if isinstance(e, ast.BinOp) and isinstance(e.op, ast.FloorDiv) and isinstance(e.left, ast.Name) and e.left.id == lname and const_value(e.right) == 2:
-        return (0, 1, 0)
-    if isinstance(e, ast.BinOp) and isinstance(e.op, (ast.Add, ast.Sub)):
-        a, b = affine(e.left, i, hname, lname), affine(e.right, i, hname, lname)
-        if a is None or b is None:
-            return None
-        s = 1 if isinstance(e.op, ast.Add) else -1
-        return (a[0] + s * b[0], a[1] + s * b[1], a[2] + s * b[2])
-    return None
+
+    def is_odd_test(self, t):
+        """`len % 2 != 0` / `== 1` / truthy `len % 2` / `len & 1`"""
+        def parity(e):
+            return isinstance(e, ast.BinOp) and ((isinstance(e.op, ast.Mod) and const_value(e.right) == 2) or (isinstance(e.op, ast.BitAnd) and const_value(e.right) == 1)) and self.is_len(e.left)
+        if parity(t):
+            return True
+        if isinstance(t, ast.Compare) and len(t.ops) == 1 and parity(t.left):
+            c = const_value(t.comparators[0])
+            return (isinstance(t.ops[0], ast.NotEq) and c == 0) or (isinstance(t.ops[0], ast.Eq) and c == 1) or (isinstance(t.ops[0], ast.Gt) and c == 0)
+        return False
+
+    def is_last(self, e):
+        if not (isinstance(e, ast.Subscript) and src(e.value) == self.lst):
+            return False
+        if const_value(e.slice) == -1 or (isinstance(e.slice, ast.UnaryOp) and isinstance(e.slice.op, ast.USub) and const_value(e.slice.operand) == 1):
+            return True
+        return self.affine(e.slice, None) in ((0, 0, 1, -1), (0, 2, 0, 0))
+
+
+def _tree_scopes(P, f):
+    """The function itself plus the helpers it hands a list to that contain a `while len(...) > 1` loop: [(func, via call or None)]"""
+    out = [(f, None)]
+    for c in walk_no_nested(f.node):
+        if isinstance(c, ast.Call):
+            for t_ in P.resolve_callee(c.func, f):
+                if t_[0] == "repo" and any(isinstance(n, ast.While) and "len(" in src(n.test) for n in walk_no_nested(t_[1].node)):
+                    out.append((t_[1], c))
+    return out
 
 
 def check_tree(P, R):
+    """IVectorMachine.fit reduces the per-partition statistics to one object by a halving tree: every round pairs element i with element
+    half + i for i in [0, half) with the non-mutating +, carries the last element over when the count is odd, and runs until one
+    element is left; that element is what the M-step receives.  The loop may live in fit or in a helper; the new list may be built
+    by a comprehension or by a for loop that appends."""
     f = P.func(IV)
     R.analysed(f)
-    du = get_defuse(f, P)
-    loops = [n for n in walk_no_nested(f.node) if isinstance(n, ast.While) and "len(" in src(n.test)]
-    if not loops:
+    scopes = _tree_scopes(P, f)
+    found = [(g, via, n) for g, via in scopes for n in walk_no_nested(g.node) if isinstance(n, ast.While) and "len(" in src(n.test)]
+    if not found:
         # an alternative: all statistics handed to one reducing task
         ok = any(isinstance(c, ast.Call) and src(c.func).endswith("reduce") for c in walk_no_nested(f.node))
         R.check(ok, "COVER.tree", IV, "reduction of the per-partition statistics", "single reduction", "the per-partition statistics are not reduced before the M-step")
         return
-    for lp in loops:
-        # while (length := len(stats)) > 1
-        lname = lst = None
+    for g, via, lp in found:
+        du = get_defuse(g, P)
+        lst = None
         for n in ast.walk(lp.test):
-            if isinstance(n, ast.NamedExpr) and isinstance(n.value, ast.Call) and src(n.value.func) == "len":
-                lname, lst = n.target.id, src(n.value.args[0])
-        gt1 = isinstance(lp.test, ast.Compare) and isinstance(lp.test.ops[0], ast.Gt) and const_value(lp.test.comparators[0]) == 1
-        if lname is None:
-            # length = len(stats) inside the body
-            for st, t, v, k in stores(lp):
-                if isinstance(t, ast.Name) and isinstance(v, ast.Call) and src(v.func) == "len":
-                    lname, lst = t.id, src(v.args[0])
-        R.check(gt1 and lname is not None, "COVER.tree-loop", IV, f"while {src(lp.test)}", "reduces until one element is left", "the pairwise reduction does not run until a single element is left", lp.lineno)
-        if lname is None:
+            if isinstance(n, ast.Call) and src(n.func) == "len" and n.args and isinstance(n.args[0], ast.Name):
+                lst = n.args[0].id
+        H = _Halving(lp, lst)
+        t = lp.test
+        gt1 = isinstance(t, ast.Compare) and len(t.ops) == 1 and H.is_len(t.left) and ((isinstance(t.ops[0], ast.Gt) and const_value(t.comparators[0]) == 1) or (isinstance(t.ops[0], ast.GtE) and const_value(t.comparators[0]) == 2) or (isinstance(t.ops[0], ast.NotEq) and const_value(t.comparators[0]) == 1))
+        R.check(gt1, "COVER.tree-loop", g.key, f"while {src(t)}", "reduces until one element is left", "the pairwise reduction does not run until a single element is left", lp.lineno)
+        # ---- the new list: comprehension bound to the list, or a fresh list appended in a for loop and bound at the end ------
+        pairs = []  # (combining call node, loop variable, range expr, has filter)
+        new_name = None
+        rebinding = None
+        for st, t_, v, k in stores(lp):
+            if isinstance(t_, ast.Name) and t_.id == lst and isinstance(v, ast.ListComp) and len(v.generators) == 1:
+                gnr = v.generators[0]
+                pairs.append((v.elt, gnr.target.id if isinstance(gnr.target, ast.Name) else None, gnr.iter, bool(gnr.ifs)))
+                new_name, rebinding = lst, st
+            if isinstance(t_, ast.Name) and t_.id == lst and isinstance(v, ast.Name) and v.id != lst:
+                new_name, rebinding = v.id, st
+        if new_name is not None and new_name != lst:
+            for fl in [n for n in walk_no_nested(lp) if isinstance(n, ast.For)]:
+                for c in walk_no_nested(fl):
+                    if isinstance(c, ast.Call) and isinstance(c.func, ast.Attribute) and c.func.attr == "append" and src(c.func.value) == new_name and c.args:
+                        pairs.append((c.args[0], fl.target.id if isinstance(fl.target, ast.Name) else None, fl.iter, False))
+            # a comprehension bound to the new name first
+            for st, t_, v, k in stores(lp):
+                if isinstance(t_, ast.Name) and t_.id == new_name and isinstance(v, ast.ListComp) and len(v.generators) == 1:
+                    gnr = v.generators[0]
+                    pairs.append((v.elt, gnr.target.id if isinstance(gnr.target, ast.Name) else None, gnr.iter, bool(gnr.ifs)))
+        if not pairs or rebinding is None:
+            R.undecided("COVER.tree", g.key, "pairwise round", "the construction of the next round's list was not recognised")
             continue
-        hname = None
-        for st, t, v, k in stores(lp):
-            if isinstance(t, ast.Name) and isinstance(v, ast.BinOp) and isinstance(v.op, ast.FloorDiv) and src(v.left) == lname and const_value(v.right) == 2:
-                hname = t.id
-        comp = None
-        for st, t, v, k in stores(lp):
-            if isinstance(t, ast.Name) and t.id == lst and isinstance(v, ast.ListComp):
-                comp = (st, v)
-        if comp is None:
-            R.undecided("COVER.tree", IV, "pairwise comprehension", "rebinding of the list by a comprehension not found")
-            continue
-        cst, lc = comp
-        g = lc.generators[0]
-        i = g.target.id if isinstance(g.target, ast.Name) else None
-        rng = g.iter
-        ok_rng = isinstance(rng, ast.Call) and src(rng.func) == "range" and len(rng.args) == 1 and affine(rng.args[0], i, hname, lname) == (0, 1, 0) and not g.ifs
-        R.check(ok_rng, "COVER.tree-range", IV, f"for {i} in {src(rng)}", "i ranges over [0, len//2)", "the pair index does not range over exactly [0, len//2)", lc.lineno)
-        kind, fexpr, args, kws = P.peel_call(lc.elt, f) if isinstance(lc.elt, ast.Call) else (None, None, [], [])
-        addop = fexpr is not None and (P.dotted(fexpr, f) or "") in ("operator.add",)
-        R.check(addop and kind == "task", "COVER.tree-op", IV, src(lc.elt)[:70], "pairs are combined with the non-mutating +", "pairs are not combined with operator.add in a task", lc.lineno)
-        idx = []
-        for a in args:
-            if isinstance(a, ast.Subscript) and src(a.value) == lst:
-                idx.append(affine(a.slice, i, hname, lname))
-        got = sorted(x for x in idx if x is not None)
-        R.check(len(idx) == 2 and got == [(1, 0, 0), (1, 1, 0)], "COVER.tree-pairs", IV, f"pairs {[src(a) for a in args]}", "stats[i] + stats[len//2 + i]: covers [0, 2*(len//2)) exactly once", f"the paired indices are {[src(a.slice) for a in args if isinstance(a, ast.Subscript)]} (affine forms {idx}): some element is skipped or added twice", lc.lineno)
-        # odd carry: last = stats[-1] taken before the rebinding, appended when length is odd
-        carry_name = None
-        for st, t, v, k in stores(lp):
-            if isinstance(t, ast.Name) and isinstance(v, ast.Subscript) and src(v.value) == lst:
-                av = affine(v.slice, i, hname, lname)
-                if const_value(v.slice) == -1 or av == (0, 2, 0) or src(v.slice).replace(" ", "") == f"{lname}-1":
-                    if not du.cfg.reach_avoiding(cst, st, {lp}) or du.cfg.reach_avoiding(st, cst, {lp}):
-                        if du.cfg.reach_avoiding(st, cst, {lp}) and not du.cfg.reach_avoiding(cst, st, {lp}):
-                            carry_name = t.id
-        appended = False
+        for elt, i, rng, filt in pairs:
+            ok_rng = isinstance(rng, ast.Call) and src(rng.func) == "range" and len(rng.args) == 1 and H.is_half(rng.args[0]) and not filt
+            R.check(ok_rng, "COVER.tree-range", g.key, f"for {i} in {src(rng)}", "i ranges over [0, len//2)", "the pair index does not range over exactly [0, len//2)", elt.lineno)
+            kind, fexpr, args, kws = P.peel_call(elt, g) if isinstance(elt, ast.Call) else (None, None, [], [])
+            addop = fexpr is not None and (P.dotted(fexpr, g) or "") in ("operator.add",)
+            R.check(addop and kind == "task", "COVER.tree-op", g.key, src(elt)[:70], "pairs are combined with the non-mutating +", "pairs are not combined with operator.add in a task", elt.lineno)
+            idx = [H.affine(a.slice, i) for a in args if isinstance(a, ast.Subscript) and src(a.value) == lst]
+            got = sorted(x for x in idx if x is not None)
+            R.check(len(idx) == 2 and got == [(1, 0, 0, 0), (1, 1, 0, 0)], "COVER.tree-pairs", g.key, f"pairs {[src(a) for a in args]}", "L[i] + L[len//2 + i]: covers [0, 2*(len//2)) exactly once", f"the paired indices are {[src(a.slice) for a in args if isinstance(a, ast.Subscript)]}: some element is skipped or added twice", elt.lineno)
+        # ---- odd carry: the last element of the *old* list is appended to the new one when the length is odd ----------------
+        carried = False
+        why = "no `if <length is odd>: <new list>.append(<last element of the old list>)`"
         for n in walk_no_nested(lp):
-            if isinstance(n, ast.If):
-                tt = src(n.test).replace(" ", "")
-                odd = tt in (f"{lname}%2!=0", f"{lname}%2==1", f"{lname}%2", f"{lname}&1")
+            if isinstance(n, ast.If) and H.is_odd_test(n.test):
                 for c in walk_no_nested(n):
-                    if isinstance(c, ast.Call) and isinstance(c.func, ast.Attribute) and c.func.attr == "append" and src(c.func.value) == lst and c.args and isinstance(c.args[0], ast.Name) and c.args[0].id == carry_name:
-                        after = du.cfg.reach_avoiding(cst, du.stmt_of(c), {lp})
-                        appended = odd and after
-        R.check(carry_name is not None and appended, "COVER.tree-carry", IV, f"odd carry `{carry_name}`", "the last element is kept when the length is odd", "with an odd number of partitions the last element (taken before the list is rebound) is not carried over: one partition's statistics never reach the M-step", lp.lineno)
+                    if not (isinstance(c, ast.Call) and isinstance(c.func, ast.Attribute) and c.func.attr == "append" and src(c.func.value) == new_name and c.args):
+                        continue
+                    a0 = c.args[0]
+                    cst = du.stmt_of(c)
+                    if H.is_last(a0):
+                        # read in place: must still be the old list, i.e. before the list name is rebound (or the new list has another name)
+                        if new_name != lst and not du.cfg.reach_avoiding(rebinding, cst, {lp}):
+                            carried = True
+                        else:
+                            why = "the last element is read after the list was rebound to the new round"
+                    elif isinstance(a0, ast.Name):
+                        for d in du.reaching(cst, a0.id):
+                            if d.value is not None and H.is_last(d.value) and du.cfg.reach_avoiding(d.stmt, rebinding, {lp}) and not du.cfg.reach_avoiding(rebinding, d.stmt, {lp}):
+                                carried = True
+                        if not carried:
+                            why = "the carried value is not the last element of the list as it was before this round"
+                    # the append must come after the pairs were built (order of the round) - or be to the new list anyway
+        R.check(carried, "COVER.tree-carry", g.key, "odd carry", "the last element is kept when the length is odd", f"with an odd number of partitions the last element is not carried over ({why}): one partition's statistics never reach the M-step", lp.lineno)
+        # ---- the root: element 0 after the loop is returned (helper) / reaches the M-step ---------------------------------------
+        if via is not None:
+            rets = [r for r in walk_no_nested(g.node) if isinstance(r, ast.Return) and r.value is not None]
+            okr = bool(rets) and all(isinstance(r.value, ast.Subscript) and src(r.value.value) == lst and const_value(r.value.slice) == 0 for r in rets)
+            R.check(okr, "COVER.tree-root", g.key, f"return {src(rets[0].value) if rets else None}", "the single remaining element", "the helper does not return the root of the reduction tree")
     # the reduced element is what the M-step receives
+    fdu = get_defuse(f, P)
+    helper_calls = [via for g, via, lp in found if via is not None]
     for c in walk_no_nested(f.node):
         if isinstance(c, ast.Call):
             kind, fexpr, args, kws = P.peel_call(c, f)
             if kind == "task" and src(fexpr) == "m_step":
                 a = args[1] if len(args) > 1 else None
-                cc = cone(du, a, du.stmt_of(c), interproc=False) if a is not None else None
-                ok = cc is not None and any(isinstance(n, ast.Subscript) and const_value(n.slice) == 0 for n in cc.nodes)
+                cc = cone(fdu, a, fdu.stmt_of(c), interproc=False) if a is not None else None
+                ok = cc is not None and (any(isinstance(n, ast.Subscript) and const_value(n.slice) == 0 for n in cc.nodes) or any(hc in cc.nodes for hc in helper_calls))
                 R.check(ok, "COVER.tree-root", IV, f"m_step(..., {src(a) if a is not None else None})", "the single remaining element", "the M-step does not receive the root of the reduction tree", c.lineno)
 
 
@@ -294,10 +375,24 @@ def run(P, R, tier):
     for key, ms in (("factor_analysis:ISVMachine.m_step", 1), ("factor_analysis:JFAMachine.m_step_v", 1), ("factor_analysis:JFAMachine.m_step_u", 1), ("factor_analysis:JFAMachine.m_step_d", 1)):
         g = P.func(key)
         prm = g.value_params[0]
-        whole = 0
-        for st, t, v, k in stores(g):
-            if isinstance(v, ast.ListComp) and isinstance(v.generators[0].iter, ast.Name) and v.generators[0].iter.id == prm and not v.generators[0].ifs and isinstance(v.elt, ast.Subscript):
-                whole += 1
+        def whole_collections(fn_, prm_, depth=0):
+            n_ = 0
+            for st, t, v, k in stores(fn_):
+                if isinstance(v, ast.ListComp) and isinstance(v.generators[0].iter, ast.Name) and v.generators[0].iter.id == prm_ and not v.generators[0].ifs and isinstance(v.elt, ast.Subscript):
+                    n_ += 1
+            if depth < 2:
+                # ... or in a helper that receives the whole list
+                for c_ in walk_no_nested(fn_.node):
+                    if isinstance(c_, ast.Call) and any(isinstance(a_, ast.Name) and a_.id == prm_ for a_ in c_.args):
+                        for t_ in P.resolve_callee(c_.func, fn_):
+                            if t_[0] == "repo":
+                                b_ = P.bind_args(t_[1], c_.args, c_.keywords)
+                                pn_ = next((p_ for p_, a_ in b_.items() if isinstance(a_, ast.Name) and a_.id == prm_), None)
+                                if pn_:
+                                    n_ += whole_collections(t_[1], pn_, depth + 1)
+            return n_
+
+        whole = whole_collections(g, prm)
         R.check(whole >= 2, "COVER.mstep", key, f"both accumulators collected from every element of {prm}", "", f"the M-step does not collect both accumulators from every per-class result in {prm}")
     check_tree(P, R)
     check_partition_list(P, R)
